@@ -66,9 +66,20 @@ TEXT["C11"] = dict(ref="DESIGN.md 4 C11", technique="TLC-generated scenarios run
     "inexplicable; messages arriving in a realm without input are logged as input-less steps, which the specification rejects.",
     note=NOTE + "In the specification realms are disjoint state records, so isolation holds there by construction; the check is the conformance leg.")
 
+TEXT["C04"] = dict(ref="DESIGN.md 4 C04", technique="TLC enumeration of hostile inputs (spec/Hostile.tla) replayed on the router in isolated workers + TLC trace validation of the bystanders' probes",
+    level="spec/Hostile.tla enumerates message template x field/option position x value kind x session phase (plus wrong-role and unknown message types, "
+    "abrupt disconnects, repeated requests, offenders without announced features); TLC lists all mutants, each is sent to the real router by an offender "
+    "session inside a synctest bubble, in worker processes whose death (panic, fatal runtime error) is the crash verdict; afterwards bystander sessions on "
+    "disjoint URIs publish, call, yield and query wamp.session.count and the recorded trace must be a behaviour of Core.tla with the offender as the only "
+    "unobserved (havoc) session.",
+    note=NOTE + "Ill-typed message *fields* and byte-level hostility need a serializer and belong to the transport family (C15); data races are looked for by the "
+    "-race variant of the concurrency checks. Structural enumeration, not all byte strings.")
+
 NOT_APPLICABLE = {}
 
 ENGINES = [
+    {"name": "hostile", "path": "/verif/tools/families.py run_hostile; spec/Hostile.tla; harness/exec.go hostile()",
+     "serves_properties": ["C04"], "kind_free_text": "TLC-enumerated hostile inputs, crash isolation, probe validation against Core.tla"},
     {"name": "core", "path": "/verif/tools/families.py run_core; spec/Core.tla MC.tla Gen.tla Trace.tla; harness/exec.go",
      "serves_properties": ["C01", "C02", "C03", "C05", "C10", "C11", "C12", "C13", "C18", "C20"],
      "kind_free_text": "TLC model checking, TLC scenario generation, replay into the real router under synctest, TLC trace validation"},
